@@ -33,7 +33,7 @@ CHECKS = {
         design="DESIGN.md §4 C03",
     ),
     "C04": dict(
-        rules="R04.1-R04.8",
+        rules="R04.1-R04.9",
         what="atomic temporary+os.replace publication and OSError containment in the file store; every MetadataStore.write result checked; no CacheMeta after a failed data write/getmtime; data before meta, provenance of the meta pair, dep_hashes before the meta write, commit after every write group; old meta_ex invalidated before a new meta becomes durable; find_cache_meta treats a missing meta_ex as a miss; a module's records share one shard of the sqlite store (names differ only after the first dot of the basename, which is all the shard key reads); the data write is skipped only after the stored data record was read and compared",
         quant="kill points and failing store operations",
         technique="CFG must-pass-through / reachability queries over the cache-writing functions, who-may-write rule",
@@ -49,7 +49,7 @@ CHECKS = {
         design="DESIGN.md §4 C05",
     ),
     "C06": dict(
-        rules="R06.1-R06.19, R05.3",
+        rules="R06.1-R06.20, R05.3",
         what="per-Op agreement of sources()/set_sources()/stolen() and PatchVisitor; borrow flag honoured by code generation; who may create IncRef/DecRef and which visit methods the post-refcount passes override; every emitter that initialises/traverses/clears/recycles instance storage covers the attributes of all classes in base_mro; memo keys of the exception transform; ERR_* exhaustiveness; definedness checks before every reading op; the two borrow-chain walks (lifetime scope, reassigned root) step through the same op kinds; a primitive's is_borrowed flag agrees with whether the bound C function takes a reference to a result it reads from a container slot / borrowing API; an argument declared stolen is given away on every exit of the C function (structured walk over clang's statement tree), and a function that gives a parameter away either owns it (declared stolen) or takes its own reference; the must-defined CFG has an unconditional edge to the handler of every normal successor; the generated constructor tests the failure value both calling conventions of __init__ produce; the definedness bitmap is cleared by `del`; attribute facts of __init__ are credited only to ops whose receiver is self; a stealing op that fails releases its operand (Cast: known finding); pass order of compile_scc_to_ir",
         quant="function IR of all compiled programs, on every path",
         technique="sibling cross-check of the three declarations of each Op's operand set; who-may-create rule; CFG ordering of the pass pipeline; cross-language ownership check of the primitive registry against clang's AST of lib-rt (borrowed results, stolen arguments)",
